@@ -38,7 +38,10 @@ var Requires = map[string][]string{
 	"C05": {"C06"},
 	"C08": {"C01", "C02", "C03", "C04", "C05", "C06", "C09"},
 	"C15": {"C07", "C09", "C08", "C14"},
-	"C18": {"C14", "C01"},
+	// "the syscalls discovered in the binary": the set F the profiler starts from is what the extraction reports, and the
+	// list is made of the reported *names*; C16's "every reported syscall exists in the table under the reported name"
+	// is what makes F a set of syscalls of the binary (seed C18h: names looked up through a mis-sized index table)
+	"C18": {"C14", "C01", "C16"},
 }
 
 // RunSpec runs a property's rules and then the rules of the properties it requires (transitively), recording one
